@@ -28,6 +28,18 @@ type Case struct {
 	NFlush    int          `json:"nflush"`
 	Holds     []sched.Hold `json:"holds,omitempty"`
 	Self      bool         `json:"self,omitempty"` // stage unknown: the first Tflush names its own tag, the others name that Tflush
+	// ProcOps: the implementation also provides go9p's SrvReqProcessOps (its
+	// SrvReqProcess / SrvReqRespond wrappers call req.Process() / req.PostProcess()).
+	ProcOps bool `json:"procops,omitempty"`
+	// the wrappers dwell this long for the target before calling on (ProcOps only)
+	ProcDelayUS int `json:"procdelayus,omitempty"`
+	RespDelayUS int `json:"respdelayus,omitempty"`
+	// stages in-process / in-respond: the target is parked inside the wrapper;
+	// it is released when Tflush number ReleaseWho has passed the schedule point
+	// ReleaseAt ("" = as soon as the Tflushes are written)
+	ReleaseAt  string `json:"release_at,omitempty"`
+	ReleaseWho int    `json:"release_who,omitempty"`
+	TAsync     bool   `json:"tasync,omitempty"` // the implementation answers the target from another goroutine after the op returned
 }
 
 const deadline = 30 * time.Second
@@ -102,7 +114,7 @@ type frame struct {
 }
 
 func run(c *Case) error {
-	sv := script.NewServer(script.Config{Msize: 8192, Dotu: c.Dotu, Maxpend: c.Maxpend, Flush: c.FlushMode, Auth: true})
+	sv := script.NewServer(script.Config{Msize: 8192, Dotu: c.Dotu, Maxpend: c.Maxpend, Flush: c.FlushMode, Auth: true, ProcOps: c.ProcOps})
 	S := sv.S
 	ctl := sched.New(c.Holds)
 	defer sched.Install(ctl)()
@@ -147,6 +159,13 @@ func run(c *Case) error {
 	tb := script.Behav{}
 	if c.TErr {
 		tb.Err, tb.Ecode = "scripted failure", 5
+	}
+	tb.Async = c.TAsync
+	if c.ProcOps && c.ProcDelayUS > 0 {
+		S.Set(script.WrapKey("process", tkey), script.Behav{DelayUS: c.ProcDelayUS})
+	}
+	if c.ProcOps && c.RespDelayUS > 0 {
+		S.Set(script.WrapKey("respond", tkey), script.Behav{DelayUS: c.RespDelayUS})
 	}
 	// bystanders held in the implementation for the whole case (unknown-tag stage)
 	var held []string
@@ -222,6 +241,33 @@ func run(c *Case) error {
 		} else {
 			for i := 0; i < nflush; i++ {
 				_ = cl.Send(mkFlush(i, ttag))
+			}
+		}
+	case "in-process", "in-respond":
+		// the target sits inside the implementation's SrvReqProcess wrapper
+		// (before req.Process()) or SrvReqRespond wrapper (its reply decided,
+		// before req.PostProcess()) while the Tflushes arrive
+		if !c.ProcOps {
+			return fmt.Errorf("harness: stage %s needs procops", c.Stage)
+		}
+		wkey := script.WrapKey(c.Stage[3:], tkey)
+		wb := script.Behav{Hold: true, DelayUS: c.ProcDelayUS}
+		if c.Stage == "in-respond" {
+			wb.DelayUS = c.RespDelayUS
+		}
+		S.Set(wkey, wb)
+		S.Set(tkey, tb)
+		_ = cl.Send(tm)
+		if !S.WaitEntered(wkey, deadline) {
+			return hangErr("target never reached the implementation's " + c.Stage[3:] + " wrapper")
+		}
+		for i := 0; i < nflush; i++ {
+			_ = cl.Send(mkFlush(i, ttag))
+		}
+		if c.ReleaseAt != "" {
+			fk := fmt.Sprintf("Tflush/%d/%d", ttag, 20+c.ReleaseWho%nflush)
+			if !ctl.WaitSeen(fk, c.ReleaseAt, deadline) {
+				return hangErr(fmt.Sprintf("%s never reached %s while the target is parked in the %s wrapper", fk, c.ReleaseAt, c.Stage[3:]))
 			}
 		}
 	case "answered":
@@ -627,8 +673,11 @@ func execute(test string, c *Case) error {
 	if c.Self {
 		hx.Label("tflush names its own tag")
 	}
+	if c.ProcOps {
+		hx.Label("implementation provides SrvReqProcessOps")
+	}
 	switch c.Stage {
-	case "same-chunk", "queued", "held", "multi", "flush-of-flush":
+	case "same-chunk", "queued", "held", "multi", "flush-of-flush", "in-process", "in-respond":
 		b, _ := json.Marshal(c)
 		hx.NonTrivial(b)
 	}
@@ -731,12 +780,49 @@ func TestEnumTwoFlushers(t *testing.T) {
 	}
 }
 
+// wpoints: where the chosen Tflush has got to when the harness lets the parked
+// target go on ("" = the Tflushes have merely been written).
+var wpoints = []string{"", "process.enter", "process.checked", "flush.enter", "flush.linked", "flush.decided"}
+
+// TestEnumInWrapper: the implementation provides SrvReqProcessOps; the target
+// is parked inside SrvReqProcess (before req.Process()) or SrvReqRespond
+// (reply decided, before req.PostProcess()) and is released when the Tflush has
+// reached each of its points.
+func TestEnumInWrapper(t *testing.T) {
+	idx := 0
+	for _, tk := range kinds {
+		for _, st := range []string{"in-process", "in-respond"} {
+			for _, wp := range wpoints {
+				for nf := 1; nf <= 2; nf++ {
+					idx++
+					if hx.NShards > 1 && idx%hx.NShards != hx.Shard {
+						continue
+					}
+					if !hx.Thorough() && nf == 2 && wp != "flush.decided" && wp != "flush.linked" {
+						continue
+					}
+					c := &Case{Dotu: idx%4 < 2, FlushMode: []int{script.FlushAbsent, script.FlushCancel, script.FlushIgnore}[idx%3], Maxpend: []int{0, 4}[idx%2],
+						Warm: []string{tk, "read"}, Target: tk, TErr: idx%7 == 3, Stage: st, NFlush: nf, ProcOps: true, ReleaseAt: wp, ReleaseWho: nf - 1, TAsync: idx%5 == 2}
+					if tk == "auth" {
+						c.Warm = []string{"read", "walk"}
+					}
+					if err := execute("inwrapper", c); err != nil {
+						hx.Violation("inwrapper", c, err.Error())
+						t.Fatalf("%+v: %v", c, err)
+					}
+				}
+			}
+		}
+	}
+	hx.Exhaustive(fmt.Sprintf("target parked in the SrvReqProcess / SrvReqRespond wrapper: %d target types x 2 wrappers x %d release points of the flusher", len(kinds), len(wpoints)))
+}
+
 func TestPropStages(t *testing.T) {
 	hx.Check(t, "stages", hx.N(400, 4000), func(t *rapid.T) {
 		c := &Case{Dotu: rapid.Bool().Draw(t, "dotu"), FlushMode: rapid.IntRange(0, 2).Draw(t, "flushmode"), Maxpend: rapid.SampledFrom([]int{0, 4}).Draw(t, "maxpend")}
 		c.Target = rapid.SampledFrom(kinds).Draw(t, "target")
 		c.TErr = rapid.IntRange(0, 4).Draw(t, "terr") == 0
-		c.Stage = rapid.SampledFrom([]string{"same-chunk", "same-chunk", "queued", "queued", "held", "held", "answered", "unknown", "flush-of-flush", "multi"}).Draw(t, "stage")
+		c.Stage = rapid.SampledFrom([]string{"same-chunk", "same-chunk", "queued", "queued", "held", "held", "answered", "unknown", "flush-of-flush", "multi", "in-process", "in-respond", "in-respond"}).Draw(t, "stage")
 		c.NFlush = 1
 		if c.Stage == "multi" || rapid.IntRange(0, 2).Draw(t, "morefl") == 0 {
 			c.NFlush = rapid.IntRange(2, 3).Draw(t, "nflush")
@@ -749,6 +835,17 @@ func TestPropStages(t *testing.T) {
 		}
 		if c.Target == "auth" && (c.Stage == "held" || c.Stage == "multi" || c.Stage == "flush-of-flush") {
 			c.Stage = "same-chunk" // AuthInit has no gate
+		}
+		inWrapper := c.Stage == "in-process" || c.Stage == "in-respond"
+		c.ProcOps = inWrapper || rapid.Bool().Draw(t, "procops")
+		if c.ProcOps {
+			c.ProcDelayUS = rapid.SampledFrom([]int{0, 0, 50, 300}).Draw(t, "procdelay")
+			c.RespDelayUS = rapid.SampledFrom([]int{0, 0, 50, 300}).Draw(t, "respdelay")
+		}
+		if inWrapper {
+			c.ReleaseAt = rapid.SampledFrom(wpoints).Draw(t, "releaseat")
+			c.ReleaseWho = rapid.IntRange(0, c.NFlush-1).Draw(t, "releasewho")
+			c.TAsync = rapid.IntRange(0, 3).Draw(t, "tasync") == 0
 		}
 		wk := []string{"walk", "walkinplace", "open", "create", "read", "write", "stat", "wstat", "clunk", "remove", "attach"}
 		nw := rapid.IntRange(0, 6).Draw(t, "nwarm")
